@@ -2,6 +2,7 @@ import Hgxv.Proofs.C07Ops
 import Hgxv.Proofs.C01Inv
 import Hgxv.Proofs.C02Inv
 import Hgxv.Proofs.C03Inv
+import Hgxv.Model.C03Spec
 import Hgxv.Proofs.C04Inv
 /-! # C07 ↔ C01 … C04: the full container invariants imply the well-formedness the hash needs
 
@@ -174,6 +175,23 @@ theorem C07_equal_C01 {Digest : Type} (dumps : JTree → String) (H : String →
   rw [factor w, factor w', content_ofC01 s h, content_ofC01 s' h',
     canon_congr (by rw [← content_ofC01 s h]; exact content_WF w) e]
 
+
+/-- the difference direction for the full model: different abstract spec contents hash differently, under the two
+explicit hypotheses of `C07_differ` (`dumps` injective on serialized trees, `H` injective on the two texts) -/
+theorem C07_differ_C01 {Digest : Type} (dumps : JTree → String) (H : String → Digest) (s s' : C01.Store)
+    (h : C01.Inv s) (h' : C01.Inv s') (e : ¬ (ofSpec01 (C01.abs s)).Equiv (ofSpec01 (C01.abs s')))
+    (hd : ∀ a b : JTree, dumps (ser a) = dumps (ser b) → ser a = ser b) (hH : ∀ x y : String, H x = H y → x = y) :
+    hashOf dumps H (ofC01 s) ≠ hashOf dumps H (ofC01 s') := by
+  have w := C07_link_C01 s h
+  have w' := C07_link_C01 s' h'
+  unfold hashOf
+  rw [factor w, factor w', content_ofC01 s h, content_ofC01 s' h']
+  intro he
+  simp only [Option.map_some, Option.some.injEq] at he
+  have e2 := hH _ _ he
+  unfold canon at e2
+  exact e (canon_inj (hd _ _ e2))
+
 /-! ## DirectedHypergraph -/
 
 def ofC02 (s : C02.Store) : Tables KD where
@@ -250,10 +268,33 @@ theorem C07_equal_C02 {Digest : Type} (dumps : JTree → String) (H : String →
   rw [factor w, factor w', content_ofC02 s h, content_ofC02 s' h',
     canon_congr (by rw [← content_ofC02 s h]; exact content_WF w) e]
 
-/-! ## TemporalHypergraph -/
+
+/-- the difference direction for the full model: different abstract spec contents hash differently, under the two
+explicit hypotheses of `C07_differ` (`dumps` injective on serialized trees, `H` injective on the two texts) -/
+theorem C07_differ_C02 {Digest : Type} (dumps : JTree → String) (H : String → Digest) (s s' : C02.Store)
+    (h : C02.Inv s) (h' : C02.Inv s') (e : ¬ (ofSpec02 (C02.abs s)).Equiv (ofSpec02 (C02.abs s')))
+    (hd : ∀ a b : JTree, dumps (ser a) = dumps (ser b) → ser a = ser b) (hH : ∀ x y : String, H x = H y → x = y) :
+    hashOf dumps H (ofC02 s) ≠ hashOf dumps H (ofC02 s') := by
+  have w := C07_link_C02 s h
+  have w' := C07_link_C02 s' h'
+  unfold hashOf
+  rw [factor w, factor w', content_ofC02 s h, content_ofC02 s' h']
+  intro he
+  simp only [Option.map_some, Option.some.injEq] at he
+  have e2 := hH _ _ he
+  unfold canon at e2
+  exact e (canon_inj (hd _ _ e2))
+
+/-! ## TemporalHypergraph
+
+`TemporalHypergraph.get_nodes()` lists `_node_metadata.keys()` (as `MultiplexHypergraph` does); the node table of the
+C07 view is read from `_node_metadata` (same key set as `_adj` by `C03.NT`). -/
+
+theorem bool_eq_of_iff {a b : Bool} (h : a = true ↔ b = true) : a = b := by
+  cases a <;> cases b <;> simp_all
 
 def ofC03 (s : C03.Store) : Tables KT where
-  adj := s.adj
+  adj := mapVals (fun _ => ([] : List Nat)) s.nmeta
   edgeList := s.edgeList
   rev := s.rev
   weights := mapVals Num.flt s.weights
@@ -263,17 +304,15 @@ def ofC03 (s : C03.Store) : Tables KT where
   weighted := s.weighted
   nextId := s.nextId
 
-theorem bool_eq_of_iff {a b : Bool} (h : a = true ↔ b = true) : a = b := by
-  cases a <;> cases b <;> simp_all
-
 theorem C07_link_C03 (s : C03.Store) (h : C03.Inv s) : WF (ofC03 s) := by
   apply wf_of_store_invariant
-  · exact h.nt.adjNodup
+  · show (keys (mapVals (fun _ => ([] : List Nat)) s.nmeta)).Nodup
+    rw [keys_mapVals]; exact h.nt.nmetaNodup
   · show (keys (mapVals metaTree s.nmeta)).Nodup
     rw [keys_mapVals]; exact h.nt.nmetaNodup
   · intro n
-    show (get? (mapVals metaTree s.nmeta) n).isSome = (get? s.adj n).isSome
-    rw [get?_mapVals, Option.isSome_map]; exact bool_eq_of_iff (h.nt.same n).symm
+    show (get? (mapVals metaTree s.nmeta) n).isSome = (get? (mapVals (fun _ => ([] : List Nat)) s.nmeta) n).isSome
+    rw [get?_mapVals, get?_mapVals, Option.isSome_map, Option.isSome_map]
   · exact h.keysNodup
   · exact h.rev_of_edge
   · exact h.id_lt
@@ -286,6 +325,59 @@ theorem C07_link_C03 (s : C03.Store) (h : C03.Inv s) : WF (ofC03 s) := by
   · intro k id hk
     show (k.1, sortNat k.2) = k
     rw [sortNat_of_sorted (h.keyCanon k id hk).1]
+
+def ofSpec03 (a : C03.Spec) : Content KT where
+  nodes := mapVals metaTree a.nodes
+  edges := a.recs.map (fun p => (p.1, Num.flt p.2.1, metaTree p.2.2))
+  hmeta := metaTree a.hmeta
+  weighted := a.weighted
+
+theorem content_ofC03 (s : C03.Store) (h : C03.Inv s) : content (ofC03 s) = ofSpec03 (C03.abs s) := by
+  have hn : (content (ofC03 s)).nodes = mapVals metaTree s.nmeta := by
+    show (keys (mapVals (fun _ => ([] : List Nat)) s.nmeta)).filterMap
+      (fun n => (get? (mapVals metaTree s.nmeta) n).map (fun md => (n, md))) = _
+    rw [keys_mapVals, ← keys_mapVals metaTree s.nmeta]
+    exact filterMap_keys_get? _ (by rw [keys_mapVals]; exact h.nt.nmetaNodup)
+  have he := content_edges_link (ofC03 s) s.weights s.emeta C03.one rfl rfl
+    (fun p hp => by
+      have hg : get? s.edgeList p.1 = some p.2 := get?_of_mem_nodup h.keysNodup hp
+      exact (h.wKeys p.2).mpr (by rw [h.rev_of_edge _ _ hg]; rfl))
+    (fun p hp => by
+      have hg : get? s.edgeList p.1 = some p.2 := get?_of_mem_nodup h.keysNodup hp
+      exact (h.mKeys p.2).mpr (by rw [h.rev_of_edge _ _ hg]; rfl))
+  have hc : content (ofC03 s) =
+      ⟨(content (ofC03 s)).nodes, (content (ofC03 s)).edges, metaTree s.hmeta, s.weighted⟩ := rfl
+  rw [hc, hn, he]
+  unfold ofSpec03 C03.abs C03.records
+  simp only [List.map_map, Function.comp_def]
+  rfl
+
+/-- **TemporalHypergraph, full API**: reachable states (`C03_inv`) whose abstract spec states are the same content
+hash equally -/
+theorem C07_equal_C03 {Digest : Type} (dumps : JTree → String) (H : String → Digest) (s s' : C03.Store)
+    (h : C03.Inv s) (h' : C03.Inv s') (e : (ofSpec03 (C03.abs s)).Equiv (ofSpec03 (C03.abs s'))) :
+    hashOf dumps H (ofC03 s) = hashOf dumps H (ofC03 s') := by
+  have w := C07_link_C03 s h
+  have w' := C07_link_C03 s' h'
+  unfold hashOf
+  rw [factor w, factor w', content_ofC03 s h, content_ofC03 s' h',
+    canon_congr (by rw [← content_ofC03 s h]; exact content_WF w) e]
+
+/-- the difference direction for the full model: different abstract spec contents hash differently, under the two
+explicit hypotheses of `C07_differ` (`dumps` injective on serialized trees, `H` injective on the two texts) -/
+theorem C07_differ_C03 {Digest : Type} (dumps : JTree → String) (H : String → Digest) (s s' : C03.Store)
+    (h : C03.Inv s) (h' : C03.Inv s') (e : ¬ (ofSpec03 (C03.abs s)).Equiv (ofSpec03 (C03.abs s')))
+    (hd : ∀ a b : JTree, dumps (ser a) = dumps (ser b) → ser a = ser b) (hH : ∀ x y : String, H x = H y → x = y) :
+    hashOf dumps H (ofC03 s) ≠ hashOf dumps H (ofC03 s') := by
+  have w := C07_link_C03 s h
+  have w' := C07_link_C03 s' h'
+  unfold hashOf
+  rw [factor w, factor w', content_ofC03 s h, content_ofC03 s' h']
+  intro he
+  simp only [Option.map_some, Option.some.injEq] at he
+  have e2 := hH _ _ he
+  unfold canon at e2
+  exact e (canon_inj (hd _ _ e2))
 
 /-! ## MultiplexHypergraph
 
@@ -361,5 +453,22 @@ theorem C07_equal_C04 {Digest : Type} (dumps : JTree → String) (H : String →
   unfold hashOf
   rw [factor w, factor w', content_ofC04 s h, content_ofC04 s' h',
     canon_congr (by rw [← content_ofC04 s h]; exact content_WF w) e]
+
+
+/-- the difference direction for the full model: different abstract spec contents hash differently, under the two
+explicit hypotheses of `C07_differ` (`dumps` injective on serialized trees, `H` injective on the two texts) -/
+theorem C07_differ_C04 {Digest : Type} (dumps : JTree → String) (H : String → Digest) (s s' : C04.Store)
+    (h : C04.Inv s) (h' : C04.Inv s') (e : ¬ (ofSpec04 (C04.abs s)).Equiv (ofSpec04 (C04.abs s')))
+    (hd : ∀ a b : JTree, dumps (ser a) = dumps (ser b) → ser a = ser b) (hH : ∀ x y : String, H x = H y → x = y) :
+    hashOf dumps H (ofC04 s) ≠ hashOf dumps H (ofC04 s') := by
+  have w := C07_link_C04 s h
+  have w' := C07_link_C04 s' h'
+  unfold hashOf
+  rw [factor w, factor w', content_ofC04 s h, content_ofC04 s' h']
+  intro he
+  simp only [Option.map_some, Option.some.injEq] at he
+  have e2 := hH _ _ he
+  unfold canon at e2
+  exact e (canon_inj (hd _ _ e2))
 
 end C07
